@@ -4,6 +4,30 @@ import sys
 import traceback
 
 
+def replay(pid, mod, args):
+    """re-execute the check that produced a replay file (same tier and seed) against the current tree, outputs
+    redirected to a scratch directory; exit 1 iff the very same case (same hash) is a violation again"""
+    import json
+    import os
+    import shutil
+    import tempfile
+    from harness import common
+    rec = json.load(open(args.replay))
+    want = os.path.splitext(os.path.basename(args.replay))[0]
+    args.tier, args.seed = rec.get("tier", args.tier), int(rec.get("seed", args.seed))
+    scratch = tempfile.mkdtemp(prefix="replay-")
+    common.OUT = scratch
+    try:
+        mod.main(args)
+        again = os.path.exists(os.path.join(scratch, "replays", pid, want + ".json"))
+    finally:
+        shutil.rmtree(scratch, ignore_errors=True)
+    print("REPLAY %s %s: %s" % (pid, want, "still a violation: " + rec["what"] if again else "no longer reproduced"))
+    if again:
+        print("VIOLATION property=%s replay=%s" % (pid, args.replay))
+    return 1 if again else 0
+
+
 def main(argv):
     if not argv:
         print("usage: ./check Cnn [--tier quick|thorough] [--seed N]")
@@ -14,7 +38,7 @@ def main(argv):
     try:
         mod = importlib.import_module("harness." + pid.lower())
         if args.replay:
-            return mod.replay(args)
+            return replay(pid, mod, args)
         if args.selftest:
             return mod.selftest(args)
         return mod.main(args)
